@@ -19,7 +19,7 @@ for d in sorted(glob.glob(os.path.join(HERE, "seeded", "*"))):
             meta["final"] = {"patch_applies_to_current_head": False, "note": r.stderr[-200:]}
         else:
             env = dict(os.environ, MOUETTE_REPO=wt)
-            checks = os.environ.get("SEED_CHECKS", prop).split(",")
+            checks = (os.environ.get("SEED_CHECKS") or ",".join(meta.get("recheck_with", [prop]))).split(",")
             meta["final"] = {"exit": 0, "mechanisms": [], "last": "", "checks": checks}
             for c in checks:
                 r = subprocess.run("cd %s && ./check %s quick" % (HERE, c), shell=True, capture_output=True, text=True, env=env)
